@@ -129,6 +129,15 @@ def state_translator():
         transparent_with=('self._lock',), ret_none='.ok st')
 
 
+def under_lock(fdef):
+    body = strip_doc(fdef.body)
+    return (len(body) == 2 and isinstance(body[0], ast.If) and not body[0].orelse
+            and ast.unparse(body[0].test) == "getattr(self, '_immutable', False)"
+            and len(body[0].body) == 1 and isinstance(body[0].body[0], ast.Raise)
+            and isinstance(body[1], ast.With) and len(body[1].items) == 1
+            and ast.unparse(body[1].items[0].context_expr) == 'self._lock')
+
+
 def merge_in_loop(fdef, what):
     """`for k, v in attributes.items(): self[k] = v` — the only statement of merge_in."""
     body = strip_doc(fdef.body)
@@ -208,6 +217,9 @@ def generate():
     di = find_def(attr, 'BoundedAttributes.__delitem__')
     parts.append(state_translator().function(di, 'def delItem (st : BA) (key : Key) : Except String BA'))
     parts.append(merge_in_loop(find_def(attr, 'BoundedAttributes.merge_in'), 'BoundedAttributes.merge_in'))
+    for fdef, name in ((si, 'setItemAtomic'), (di, 'delItemAtomic')):
+        parts.append(f'/-- is every statement of the method other than the immutability test inside `with self._lock`? -/\n'
+                     f'def {name} : Bool := {"true" if under_lock(fdef) else "false"}\n')
 
     # ---------------------------------------------------------------- resource
     if not same_shape(find_def(res, 'Resource.__init__'), RES_INIT_TEMPLATE):
